@@ -17,10 +17,6 @@ package api
 //@ extern api.decode(r, v)
 //@   modifies pointee(v)
 //@ extern api.encode(w, v)
-//@ extern client.GetNodesForUser(nc, userID)
-//@   fresh res0
-//@   modifies state(nc)
-//@   ensures busOps(nc) == old(busOps(nc)) + 1
 //@ extern client.DeleteNode(nc, id, parent, origin)
 //@   modifies state(nc)
 //@   ensures busOps(nc) == old(busOps(nc)) + 1
@@ -48,7 +44,23 @@ package api
 //@   local h *api.Nodes#1
 //@   local res http.ResponseWriter#1
 //@   local req *http.Request#1
-//@   requires h != nil && req != nil && req.URL != nil
+//@   requires h != nil && req != nil && req.URL != nil && busAcyclic(h.nc)
 //@   modifies req.URL, state(h.nc), res
 //@   ensures [C09] unauthorised-gets-401-and-no-bus-access: !old(authorised(h, req)) ==> busOps(h.nc) == old(busOps(h.nc)) && respN(res) == old(respN(res)) + 1 && respStatus(res) == 401
 //@   assert [C09] publish-only-when-authorised: authorised(h, req) at "h.nc.Publish(\"node.\"+id+\".not\", d)"
+
+// ---- key.go (C09): bearer tokens ---------------------------------------------------------------------------------
+//@ func (Key).keyFunc
+//@   props C09
+//@   local k api.Key#1
+//@   ensures [C09] instance-key: res1 == nil && typeIs(res0, []byte) && sameSlice(dyn(res0, []byte), k.bytes)
+//@ func (Key).ValidToken
+//@   props C09
+//@   local str string#1
+//@   ensures [C09] only-accepted-hs256-tokens: res0 ==> jwtOK(str) && jwtAlg(str) == "HS256"
+//@ spec func authHeader(req *http.Request) string = hdrGet(req.Header, "Authorization")
+//@ func (Key).Valid
+//@   props C09
+//@   local req *http.Request#1
+//@   requires req != nil
+//@   ensures [C09] bearer-form-and-valid-token: res0 ==> fieldsN(authHeader(req)) >= 2 && fieldsPart(authHeader(req), 0) == "Bearer" && jwtOK(fieldsPart(authHeader(req), 1)) && jwtAlg(fieldsPart(authHeader(req), 1)) == "HS256"
